@@ -157,11 +157,20 @@ fn exec(line: &str) -> (String, Option<String>, bool) {
             let view = View::from(v3.iter().map(|v| build(v, &sigs)).collect::<Vec<View>>());
             sycamore::web::render_in_scope(move || view, o2.unchecked_ref());
         }))?;
+        domutil::run_microtasks(); // `on_mount` callbacks (NoSsr mounts its children there)
         let s = vis(&other, None);
         r.dispose();
         other.parent_node().map(|p| p.remove_child(&other));
         Ok(s)
     };
+    if has_nossr && verdict.is_none() {
+        // right after hydration (and the mount of the NoSsr children) the document shows what a client render shows
+        let have = vis(&container, None);
+        match fresh(&cur) {
+            Ok(want) => if want != have { verdict = Some(format!("[hydrate-stale] after hydration of a view with NoSsr: visible tree `{have}`, a client render shows `{want}`")); }
+            Err(m) => verdict = Some(format!("[hydrate-panic] client render panicked: {m}")),
+        }
+    }
     for (i, v) in &writes {
         if *i >= sigs.len() { break; }
         let s = sigs[*i];
@@ -187,6 +196,10 @@ fn exec(line: &str) -> (String, Option<String>, bool) {
     let has_show = vds.iter().any(|v| sx(v).contains("(show "));
     let has_list = vds.iter().any(|v| sx(v).contains("(keyed "));
     let verdict = verdict.map(|v| if has_list { format!("[hydrate-list] {v}") } else if has_show { format!("[hydrate-show] {v}") } else { v });
+    if has_nossr {
+        // not modelled: judged by the oracle only
+        return ("unmodelled: NoSsr".into(), verdict, true);
+    }
     (out.join(" | "), verdict, true)
 }
 
